@@ -8,12 +8,15 @@ R17.2  declined members / classes skip their attributes; member pre-skip; positi
 R17.3  interest table: visitor event -> governing interest flag(s); byte reader == tree replay == flag naming.
 R17.4  replay completeness and payload identity of the accept functions against the tree builder.
 R17.5  replay guards: a replay is conditional only on interest flags, the visitor's choice and the presence of the replayed data itself.
+R17.6  no shortcut (early success) exit in the visitor-driving functions of the byte reader.
+R17.7  the tree-building visitors accept every item (Continue / Some on every successful exit).
 """
 import json
 import os
 import re
 
 from lib import hir as H
+from lib import tables as T
 from rules import duke_common as D
 
 SPECF = os.path.join(os.path.dirname(os.path.dirname(os.path.abspath(__file__))), "spec", "c17.json")
@@ -38,7 +41,11 @@ CLAIM = {
             "but the presence (Some / non-empty / enum variant) of the very tree data it delivers and holds whenever that data is present "
             "(truth table over the classified atoms of all enclosing if / if-let / match-arm / let-else / early-exit / loop-exit conditions), "
             "and no element-dropping or reordering iterator adaptor stands between a tree collection and its replay loop: a replay can neither "
-            "be skipped nor spuriously opened because of a sibling field. (R17.6) no shortcut exit in the visitor-driving functions of the byte reader; (R17.5) emptiness of an Option<collection> field is not a presence test (Some(empty) is replayed).",
+            "be skipped nor spuriously opened because of a sibling field. (R17.6) no shortcut exit in the visitor-driving functions of the byte reader; (R17.5) emptiness of an Option<collection> field is not a presence test (Some(empty) is replayed). "
+            "(R17.7) the tree-building visitor impls never decline: every successful exit of their visit_class / visit_field / visit_method / "
+            "visit_record_component (ControlFlow) and visit_code / from_attribute (Option) yields Continue / Some, so a full read or a replay "
+            "into the tree delivers every class of a concatenated stream, every member and every unknown attribute. R17.4(a) also follows a "
+            "node that is destructured (`let Node { a, b } = self`) instead of projected (`self.a`).",
     "note": "Not decided: that a parse arm consumes exactly attribute_length bytes on malformed input, the relative ORDER of events (reader "
             "and accept differ by design), label/frame values, equality of the replayed tree with the original (needs value reasoning), "
             "that a present-but-empty annotations attribute is replayed. Trusted: rustc HIR/typeck/const-eval; spec/c17.json and "
@@ -65,6 +72,7 @@ def run(F, R, tier):
     r17_3(ctx)
     r17_4(ctx)
     r17_6(ctx)
+    r17_7(ctx)
     r17_5(ctx)
     return ("A6 must-consume by path enumeration of stream effects in the 5 attribute-dispatch loops and the Break arms; layout of the "
             "attribute skipper, member pre-skip and with_pos save/restore; A5 interest table (event -> boolean function of interest flags) "
@@ -94,6 +102,129 @@ def r17_6(ctx):
                expect="the function returns successfully only through its final expression", got=[H.render(x)[:120] for x in early],
                detail="an early success exit skips the events a full read delivers after that point (they are then missing for some interest masks)")
     R.floor("R17.6", 8)
+
+
+class _LazyLets(T.Evaluator):
+    """Evaluator for one expression of a body: a local that was not bound on the way is looked up at its `let` (so that
+    `let verdict = ControlFlow::Continue(..); Ok(verdict)` evaluates like `Ok(ControlFlow::Continue(..))`)."""
+
+    def __init__(self, root, **kw):
+        T.Evaluator.__init__(self, **kw)
+        self.root = root
+        self.busy = set()
+
+    def ev(self, n, env):
+        if n.get("k") == "path" and n["res"].get("r") == "local" and n["res"]["id"] not in env and n["res"]["id"] not in self.busy:
+            init = H.let_init_of(self.root, n["res"]["id"])
+            if init is not None and len(self.busy) < 8:
+                self.busy.add(n["res"]["id"])
+                try:
+                    try:
+                        env[n["res"]["id"]] = self.ev(init, env)
+                    except T.Return as r:
+                        env[n["res"]["id"]] = r.v
+                finally:
+                    self.busy.discard(n["res"]["id"])
+        return T.Evaluator.ev(self, n, env)
+
+    def match(self, n, env):
+        """first-match evaluation; where the scrutinee is not known every arm that may be taken is evaluated and the alternatives are
+        kept as a nested ("v", "if", [condition, this arm, the remaining arms]) value"""
+        sv = self.scrut_override[id(n)] if id(n) in self.scrut_override else self.ev(n["scrut"], env)
+        alts = []
+        for a in n["arms"]:
+            e2 = dict(env)
+            r = T.match_pat(a["pat"], sv, e2)
+            if r is False:
+                continue
+            if r is None:
+                for (i, nm) in H.pat_bindings(a["pat"]):
+                    e2.setdefault(i, T.sym(nm))
+            g = self.ev(a["guard"], e2) if "guard" in a else ("b", True)
+            if g == ("b", False):
+                continue
+            try:
+                v = self.ev(a["body"], e2)
+            except T.Return as ret:
+                v = ("v", "return", [ret.v])
+            alts.append(v)
+            if r is True and g == ("b", True):
+                break
+        if not alts:
+            return T.sym("<no arm>")
+        out = alts[-1]
+        for v in reversed(alts[:-1]):
+            out = ("v", "if", [T.sym("match %s" % T.show(sv)[:40]), v, out])
+        return out
+
+
+def r17_7(ctx):
+    """R17.7: the tree builder is the full read: it accepts every item (seed C17-11: `Vec<ClassFile>::visit_class` answers Break for a
+    class name it already holds - the second of two concatenated class files is consumed but not delivered)."""
+    R = ctx.R
+    R.rule("R17.7", "the tree-building visitors never decline: every method of a visitor-trait impl in duke::visitor::implementations::tree "
+                    "whose result can decline an item (Result<ControlFlow<..>>: visit_class / visit_field / visit_method / "
+                    "visit_record_component; Result<Option<..>>: visit_code, from_attribute) completes successfully only with the accepting "
+                    "variant (Continue / Some) - declining is a choice of partial visitors; a full read or a replay into the tree delivers "
+                    "every class, member and attribute (an error exit is not a decline)")
+    tmod = "duke::visitor::implementations::tree"
+    inline = {b["key"]: b for b in ctx.duke.bodies if b["key"].startswith(tmod) and b.get("dk") in ("Fn", "AssocFn") and isinstance(b.get("body"), dict)}
+    n = 0
+    for b in ctx.duke.bodies:
+        if not b["key"].startswith(tmod) or b.get("dk") != "AssocFn" or not isinstance(b.get("body"), dict):
+            continue
+        m = re.search(r"^<(.+) as ([\w:]+)", b.get("impl_trait") or "")
+        if not m or not m.group(2).startswith("duke::visitor::"):
+            continue
+        out_ty = (b.get("output") or "").replace("core::result::", "").replace("core::ops::control_flow::", "").replace("core::option::", "")
+        if not re.match(r"^Result<(ControlFlow|Option)<", out_ty):
+            continue
+        raw_out = b.get("output") or ""
+        if raw_out.startswith("core::result::Result<" + m.group(1) + ","):
+            continue        # `Result<Self>` of an impl whose Self happens to be an Option (finish_class of Option<ClassFile>): nothing to decline
+        accepting = "Continue" if out_ty.startswith("Result<ControlFlow<") else "Some"
+        who = "%s::%s for %s" % (short(m.group(2)), b["name"], short(m.group(1).split("<")[0]) + ("<%s>" % short(m.group(1).split("<", 1)[1].rstrip(">")) if "<" in m.group(1) else ""))
+        verdicts = []       # (leaf, "accept" | "decline" | "?")
+
+        def classify(v, leaf, depth=0):
+            if depth > 8:
+                verdicts.append((leaf, "?"))
+            elif v[0] == "err" or (v[0] == "v" and v[1] == "Err"):
+                pass
+            elif v[0] == "v" and v[1] in ("Ok", "return") and len(v[2]) == 1:
+                classify(v[2][0], leaf, depth + 1)
+            elif v[0] == "v" and v[1] == "if" and len(v[2]) == 3:
+                classify(v[2][1], leaf, depth + 1)
+                classify(v[2][2], leaf, depth + 1)
+            elif v[0] == "v" and v[1] in ("Continue", "Some"):
+                verdicts.append((leaf, "accept" if v[1] == accepting else "?"))
+            elif v[0] == "v" and v[1] in ("Break", "None"):
+                verdicts.append((leaf, "decline"))
+            else:
+                verdicts.append((leaf, "?"))
+        for leaf in D.success_leaves(b["body"]):
+            ev = _LazyLets(b["body"], inline=inline, max_inline=3)
+            try:
+                v = ev.ev(leaf, {})
+            except T.Return as r:
+                v = r.v
+            except T.Break:
+                v = T.sym("<break>")
+            classify(v, leaf)
+        n += 1
+        unknown = [l for l, x in verdicts if x == "?"]
+        declines = [l for l, x in verdicts if x == "decline"]
+        if declines:
+            R.inst("R17.7", "accepts:%s=declines" % who, False, sp=declines[0].get("sp") or b["sp"], expect="ControlFlow::Continue / Some on every successful exit",
+                   got=[H.render(l)[:100] for l in declines][:3],
+                   detail="the tree builder declines an item under some condition: a read (or a replay) into it consumes the item without "
+                          "delivering it - e.g. the second of two concatenated class files")
+        elif unknown or not verdicts:
+            R.unrecognised("R17.7", "accepts:%s" % who, "cannot tell whether this exit accepts or declines: `%s`"
+                           % (H.render(unknown[0])[:120] if unknown else "no successful exit found"), (unknown[0].get("sp") if unknown else None) or b["sp"])
+        else:
+            R.inst("R17.7", "accepts:%s" % who, True, sp=b["sp"], got="%d successful exit(s), all %s" % (len(verdicts), accepting))
+    R.floor("R17.7", 6)
 
 
 class Ctx:
@@ -1754,8 +1885,8 @@ def r17_3_impls(ctx, gov_tab):
         for vb in duke.bodies:
             if impl_prefix(vb) != pre or not (vb.get("name") or "").startswith("visit_"):
                 continue
-            if not H.diverges(vb["body"]):
-                continue
+            if not H.diverges(vb["body"]) or any(x.get("k") == "ret" for x in H.walk(vb["body"], into_closures=False)):
+                continue        # completes (or returns explicitly: `return Ok(..)` as the last statement is not a panic)
             keys = [k for k in gov_tab if k.split(":", 1)[0] == lvl and k.split(":", 1)[1].split("(")[0] == vb["name"]]
             if not keys:
                 R.inst("R17.3", "impl-panics:%s::%s" % (who, vb["name"]), True, sp=vb["sp"], nontrivial=False,
@@ -1838,6 +1969,16 @@ def closure_element_source(root, clo, ci):
     return None
 
 
+def pat_adt(res):
+    """ADT path of a tuple-struct / struct pattern: enum-variant patterns carry `adt` + `variant`; a pattern of a plain struct
+    (`let Annotation { annotation_type, .. } = self`) is resolved to the struct itself and carries its `path` only."""
+    if res.get("adt"):
+        return res["adt"]
+    if res.get("dk") == "Struct" or (res.get("dk") or "").startswith("Ctor(Struct"):
+        return res.get("path")
+    return None
+
+
 def pat_steps(pat, lid, acc=()):
     """Destructuring steps from the pattern root to the binding of `lid`."""
     k = pat.get("k")
@@ -1857,13 +1998,13 @@ def pat_steps(pat, lid, acc=()):
     if k == "ptuplestruct":
         res = pat["res"]
         for i, x in enumerate(pat["pats"]):
-            r = pat_steps(x, lid, acc + (("variant", res.get("adt"), res.get("variant"), str(i)),))
+            r = pat_steps(x, lid, acc + (("variant", pat_adt(res), res.get("variant"), str(i)),))
             if r is not None:
                 return r
     if k == "pstruct":
         res = pat["res"]
         for f in pat["fields"]:
-            r = pat_steps(f["pat"], lid, acc + (("variant", res.get("adt"), res.get("variant"), f["name"]),))
+            r = pat_steps(f["pat"], lid, acc + (("variant", pat_adt(res), res.get("variant"), f["name"]),))
             if r is not None:
                 return r
     if k == "por":
@@ -1954,10 +2095,22 @@ def origin_root(e, root, fn):
         if cur.get("k") == "field":
             chain.append(cur)
             cur = cur["e"]
-        elif cur.get("k") == "mcall" and cur["name"] in PASS_METHODS:
+            continue
+        if cur.get("k") == "mcall" and cur["name"] in PASS_METHODS:
             cur = cur["recv"]
-        else:
-            break
+            continue
+        # `let Node { a, .. } = x;` ... `a`  is  `x.a`: continue at the destructured value (plain structs only: an enum-variant
+        # pattern is a test of its own and names the place, see origin)
+        l = H.local_of(cur)
+        bnd = find_binding(root, l[0]) if l and not any(i == l[0] for p in fn["params"] for i, _ in H.pat_bindings(p)) else None
+        if bnd and bnd[0] in ("let", "letexpr", "match") and bnd[2] is not None and len(chain) < 12:
+            steps = pat_steps(bnd[1], l[0]) or ()
+            if steps and all(st[0] == "variant" and st[2] is None and st[1] for st in steps):
+                for st in reversed(steps):
+                    chain.append({"k": "field", "adt": st[1], "name": st[3]})
+                cur = bnd[2]
+                continue
+        break
     loc = H.local_of(cur)
     if not loc:
         return origin(e, root, fn)
@@ -2292,6 +2445,12 @@ def r17_4(ctx):
             for n, parents in H.walk_with_parents(b["body"]):
                 if n.get("k") == "field" and n.get("adt") == ity and H.local_of(n["e"]) and H.local_of(n["e"])[0] in self_ids:
                     used.setdefault(n["name"], []).append(payload_use(n, parents, b))
+            # `let Node { a, b, .. } = self;` (or `match self { Node { a, .. } => .. }`, `if let`): each use of a binding is a use of the field
+            for fname, lids in self_destructurings(b, ity, self_ids).items():
+                used.setdefault(fname, [])
+                for n, parents in H.walk_with_parents(b["body"]):
+                    if n.get("k") == "path" and n["res"].get("r") == "local" and n["res"]["id"] in lids:
+                        used[fname].append(payload_use(n, parents, b))
             for f in adt["variants"][0]["fields"]:
                 uses = used.get(f["name"], [])
                 ok = any(uses)
@@ -2455,6 +2614,35 @@ def r17_4(ctx):
                    expect="replayed from " + ",".join(sorted(want)), got="replayed from %s" % got,
                    detail="the nested node replayed here must come from the field in which the builder's finish_%s stores it" % group)
     R.floor("R17.4", 220)
+
+
+def self_destructurings(b, ity, self_ids):
+    """{field name: {local ids}} for the fields of the struct `ity` that the function binds by destructuring its receiver:
+    `let Node { a, b: renamed, .. } = self` / `= *self` / `= &self`, the same as `if let` / `match self { Node { .. } => }`."""
+    out = {}
+
+    def is_self(e):
+        if e is None:
+            return False
+        l = H.local_of(H.peel(e, refs=True, derefs=True))
+        return bool(l) and l[0] in self_ids
+
+    def take(pat):
+        p = pat
+        while p.get("k") in ("pref", "pbox", "pderef") or (p.get("k") == "bind" and "sub" in p):
+            p = p["pat"] if p.get("k") != "bind" else p["sub"]
+        if p.get("k") != "pstruct" or pat_adt(p["res"]) != ity or p["res"].get("variant"):
+            return
+        for f in p["fields"]:
+            out.setdefault(f["name"], set()).update(i for i, _ in H.pat_bindings(f["pat"]))
+    for n in H.walk(b["body"]):
+        k = n.get("k")
+        if k in ("let", "letexpr") and is_self(n.get("init")):
+            take(n["pat"])
+        elif k == "match" and is_self(n["scrut"]):
+            for a in n["arms"]:
+                take(a["pat"])
+    return out
 
 
 def variant_field_count(adt, vname):
@@ -2905,6 +3093,10 @@ class Guards:
             if scrut is not None and self.is_visitor_value(scrut):
                 return T_
             return f_and([self.pat_cond(x, None, depth + 1) for x in p["pats"]])
+        if k in ("pstruct", "ptuplestruct") and not p["res"].get("variant") and pat_adt(p["res"]):
+            # a plain struct pattern (`Annotation { annotation_type, .. }`) tests nothing by itself: only its sub-patterns can
+            subs = p.get("pats") if k == "ptuplestruct" else [f["pat"] for f in p.get("fields", [])]
+            return f_and([self.pat_cond(x, None, depth + 1) for x in subs])
         v = H.pat_variant(p)
         if v and v[1]:
             adt, vn = v
